@@ -347,3 +347,28 @@ reg("C12", [
     "core::fmt (Formatter, Arguments templates, debug builders) is a model; the crate's own fmt impls are executed from MIR",
     "from_utf8 / from_utf8_lossy validity is decided exactly by a z3 formula of the UTF-8 well-formedness table",
 ])
+
+reg("C19", [
+    M("C19", "text", "txt_text",
+      "chunk: strings of 0,1,3,253,254,255,256 (+508,509,510) bytes, every byte symbolic (valid UTF-8); attr: maps of 1-2 entries with "
+      "absent / empty / non-empty values, keys without '=', all bytes symbolic, both HashMap iteration orders; duplicate keys; "
+      "long: texts of 0..3 symbolic chars over the full Unicode scalar range",
+      ["<TXT as TryFrom<&str>>::try_from", "<String as TryFrom<TXT>>::try_from", "<TXT as TryFrom<HashMap<String, Option<String>>>>::try_from",
+       "TXT::attributes", "TXT::long_attributes", "TXT::add_char_string", "CharacterString::{new,internal_new,try_from}"]),
+], [
+    "strings are valid UTF-8 (type invariant of &str / String), decided by a z3 formula of the well-formedness table",
+    "HashMap<String, Option<String>> is a model; both iteration orders of a 2-entry map are explored",
+])
+
+reg("C11", [
+    M("C11", "reserialize", "reserialize",
+      "parser-accepted messages: all 12-byte headers (every flag word / opcode / rcode nibble); header + 1 question over 13..15 (17) fully "
+      "symbolic bytes; header + one record of each of the 42 parser entries (+unknown) with RDLENGTH 0..4 (6) and symbolic RDATA "
+      "(foreign compression pointers inside RDATA names included; envelope values concrete for name-bearing types); OPT first/last "
+      "among additional records with 0/4/5 option bytes: build_bytes_vec(_compressed) succeed and parse back to an equal packet",
+      ["Packet::parse", "Packet::build_bytes_vec", "Packet::build_bytes_vec_compressed", "Header::{parse,write_to,get_flags,opt_rr,extract_info_from_opt_rr}",
+       "ResourceRecord / RData / typed RDATA parse + write_to + write_compressed_to + len", "Name::{parse,plain_append,compress_append}"]),
+], [
+    "loop bound 10 per loop head; paths that reach it (legal pointer cycles up to the 255-octet budget) are outside the claim",
+    "known finding (not repaired): unnamed RCODE values collapse to RCODE::Reserved and are written back as 1, see known_findings.txt",
+])
